@@ -145,7 +145,8 @@ def _exec_case(ctx, mod, case):
         import traceback
 
         sess.notes["cases_aborted_by_exception"] += 1
-        if getattr(mod, "RAISES_ARE_VIOLATIONS", False):
+        in_repo = any(os.path.realpath(fs.filename).startswith(REPO + os.sep) for fs in traceback.extract_tb(e.__traceback__))
+        if getattr(mod, "RAISES_ARE_VIOLATIONS", False) and in_repo:  # raised by (or underneath) the library, not by the driver itself
             # every generated case of this property lies inside its quantifier: the API must answer, not raise
             tb = " <- ".join(f"{fs.name}:{fs.lineno}" for fs in traceback.extract_tb(e.__traceback__)[-5:])
             sess.check("R-noraise", False, "the library raised on an in-scope case", {"exc": repr(e), "where": tb}, key="raised-" + type(e).__name__)
